@@ -14,11 +14,12 @@ Inductive prog (R : Type) : Type :=
 | SetExpiry (key : string) (t : option Z) (touch : bool) (k : prog R)
 | DeleteKey (key : string) (k : prog R)
 | Now (k : Z -> prog R)
-| Flush (d : Z) (k : prog R)
+| FlushDb (k : prog R)
+| FlushAll (k : prog R)
 | GetDb (k : Z -> prog R).
 Arguments Ret {R}. Arguments KeysExist {R}. Arguments GetExpiry {R}. Arguments GetValues {R}.
 Arguments SetValues {R}. Arguments SetExpiry {R}. Arguments DeleteKey {R}. Arguments Now {R}.
-Arguments Flush {R}. Arguments GetDb {R}.
+Arguments FlushDb {R}. Arguments FlushAll {R}. Arguments GetDb {R}.
 
 Fixpoint bind {A B} (p : prog A) (f : A -> prog B) : prog B :=
   match p with
@@ -30,7 +31,8 @@ Fixpoint bind {A B} (p : prog A) (f : A -> prog B) : prog B :=
   | SetExpiry key t touch k => SetExpiry key t touch (bind k f)
   | DeleteKey key k => DeleteKey key (bind k f)
   | Now k => Now (fun x => bind (k x) f)
-  | Flush d k => Flush d (bind k f)
+  | FlushDb k => FlushDb (bind k f)
+  | FlushAll k => FlushAll (bind k f)
   | GetDb k => GetDb (fun x => bind (k x) f)
   end.
 
@@ -45,7 +47,8 @@ Fixpoint run_seq {R} (d : Z) (p : prog R) (s : state) : state * R :=
   | SetExpiry key t _ k => run_seq d k (set_expiry s d key t)
   | DeleteKey key k => run_seq d k (delete_key s d key)
   | Now k => run_seq d (k (st_now s)) s
-  | Flush d' k => run_seq d k (flush s d')
+  | FlushDb k => run_seq d k (flush s d)
+  | FlushAll k => run_seq d k (flush s (-1))
   | GetDb k => run_seq d (k d) s
   end.
 
@@ -60,8 +63,12 @@ Definition step1 {R} (d : Z) (p : prog R) (s : state) : state * prog R :=
   | SetExpiry key t _ k => (set_expiry s d key t, k)
   | DeleteKey key k => (delete_key s d key, k)
   | Now k => (s, k (st_now s))
-  | Flush d' k => (flush s d', k)
+  | FlushDb k => (flush s d, k)
+  | FlushAll k => (flush s (-1), k)
   | GetDb k => (s, k d)
   end.
 
 Definition is_ret {R} (p : prog R) : bool := match p with Ret _ => true | _ => false end.
+
+(** [params.Command[i]] (handlers test the arity first). *)
+Definition arg (argv : list string) (i : nat) : string := nth i argv "".
